@@ -94,13 +94,41 @@ def model_to_case(model):
     attrs, sizes = list(model.domain.attrs), list(model.domain.shape)
     mcl = list(model.cliques)
     idx = {cl: i for i, cl in enumerate(mcl)}
+    # exact rationals of exp(theta - shift), one shift per clique.  The shift is the largest parameter over the JOINTLY feasible cells
+    # (a clique's own maximum may sit in a cell another clique forbids; shifting by it would underflow every allowed cell - an artefact
+    # of this conversion, the code itself works in log space), exp of very negative numbers is taken as an exact power, and a parameter
+    # above the shift (a cell no full assignment can reach: some other clique forbids it) is capped at the shift - it never carries mass.
+    logj = np.zeros(sizes)
+    tabs = {}
+    for cl in mcl:
+        f = model.potentials[cl]
+        fa = list(f.domain.attrs)
+        v = np.asarray(f.values, dtype=float).reshape([sizes[attrs.index(a)] for a in fa])
+        ax = [attrs.index(a) for a in fa]
+        v2 = np.transpose(v, np.argsort(ax)).reshape([sizes[i] if i in ax else 1 for i in range(len(attrs))])
+        tabs[cl] = v2
+        with np.errstate(all='ignore'):
+            logj = logj + v2
+    feas = np.isfinite(logj) | (logj == np.inf)
+    def exact_exp(x):
+        if x >= -700.0:
+            return Fraction(float(math.exp(x)))
+        if x < -2100.0:
+            return Fraction(0)
+        k = int(math.ceil(-x / 700.0))
+        return Fraction(float(math.exp(x / k))) ** k
     pots = {}
     for cl in mcl:
         f = model.potentials[cl]
         v = np.asarray(f.values, dtype=float).reshape(-1)
         fin = v[np.isfinite(v)]
         shift = float(fin.max()) if fin.size else 0.0
-        vals = [Fraction(0) if (not math.isfinite(t) and t < 0) else Fraction(float(math.exp(t - shift))) for t in v]
+        if feas.any():
+            b = np.broadcast_to(tabs[cl], logj.shape)[feas]
+            b = b[np.isfinite(b)]
+            if b.size:
+                shift = float(b.max())
+        vals = [Fraction(0) if (not math.isfinite(t) and t < 0) else exact_exp(min(t - shift, 0.0)) for t in v]
         pots[cl] = (list(f.domain.attrs), vals)
     nbrs = {cl: sorted(model.neighbors[cl], key=lambda c: idx[c]) for cl in mcl}
     return dict(attrs=attrs, sizes=sizes, mcl=mcl, pots=pots, nbrs=nbrs, ids=pgmgen.ids_of(attrs), total=float(model.total))
